@@ -11,7 +11,8 @@ package main
 //	waitReadDrains / waitWriteDrains    the same body stops the timer and drains timeout.C when Stop
 //	                                    reports false (needed under asynctimerchan=1)
 //	waitReadChain                       every successful return of Read is preceded, in its block,
-//	                                    by a call that re-notifies readers when data is left
+//	                                    by a call that re-notifies readers when data is left, and
+//	                                    nothing after that call changes s.bufptr or calls Recv
 //	waitAcceptReloads                   AcceptKCP loads l.rd inside a loop (it does not: D8)
 
 import (
@@ -232,6 +233,18 @@ func factChain(p *pkgInfo, fd *ast.FuncDecl) bool {
 			// an `if more { s.notifyReadEvent() }` also counts
 			if is, ok := st.(*ast.IfStmt); ok && callsMethod(is.Body, "notifyReadEvent") {
 				seen = true
+			}
+			// the notification must see the final state: anything that still changes what is
+			// readable (s.bufptr = …, s.kcp.Recv(…)) after it cancels it
+			if as, ok := st.(*ast.AssignStmt); ok {
+				for _, l := range as.Lhs {
+					if isSel(l, "s", "bufptr") {
+						seen = false
+					}
+				}
+			}
+			if es, ok := st.(*ast.ExprStmt); ok && callsMethod(es, "Recv") {
+				seen = false
 			}
 			rs, ok := st.(*ast.ReturnStmt)
 			if !ok || len(rs.Results) != 2 {
